@@ -360,12 +360,41 @@ def step (st : St) (op impl : String) : St × StepOut :=
       | some kv =>
         let jm : JobMeta := ⟨s, t, encode kt kv⟩
         let enc := encodeMeta jm
+        let f16 : Bool := decide (s < 2 ^ 64) && t.any (fun v => v == 0 || v ≥ 2 ^ 64)
         let orc := if metaOk jm then
             (if lastN impl 4 == s!"ok {s} {showTtl t} {key}" then [] else ["meta-roundtrip"])
+          else if f16 then
+            -- known finding F16: a TTL of 0 ns or of 2^64 ns and more does not survive `JobOptions`' wire format
+            (if lastN impl 4 == s!"ok {s} {showTtl t} {key}" then [] else ["c19-jobopts-ttl-not-roundtripped"])
           else []
         (st, { model := s!"{hex enc} {metaModel kt (some enc)}", oracle := orc, nontrivial := metaOk jm })
       | none => (st, { model := "bad-val" })
     | _, _, _ => (st, { model := "bad-op" })
+  -- E-PURE ops of the `jobwire` harness (`JobOptions::new(ttl).into_bytes()` → `from_bytes` on the real type; the
+  -- submit time is the wall clock, so only its round trip is reported): the same model, `Codec.encodeMeta/decodeMeta`
+  | ["jo", t] =>
+    match (if t == "-" then some none else t.toNat?.map some) with
+    | some (ttl : Option Nat) =>
+      let wire := beVal (encodeBE 8 (ttl.getD 0))
+      let back : Option Nat := (decodeMeta (some (encodeMeta ⟨0, ttl, []⟩))).bind (·.ttl)
+      let sh := fun (o : Option Nat) => match o with | some v => toString v | none => "-"
+      let implBack : Option (Option Nat) := ((words impl).findSome? fun w => match w.splitOn "=" with
+        | ["back", b] => some b | _ => none).bind fun b => if b == "-" then some none else b.toNat?.map some
+      -- "encode followed by decode yields the original value": the TTL of the options. Known finding F16: 0 ns and
+      -- everything from 2^64 ns on do not come back; any OTHER value that does not come back is a violation
+      let f16 : Bool := ttl.any fun v => v == 0 || v ≥ 2 ^ 64
+      let orc : List String := match implBack with
+        | none => ["unparsable"]
+        | some ib => if ib == ttl then [] else [if f16 then "c19-jobopts-ttl-not-roundtripped" else "c19-jobopts-roundtrip"]
+      (st, { model := s!"len=16 wire={wire} back={sh back} submit_same=1", oracle := orc, nontrivial := f16 })
+    | none => (st, { model := "bad-op" })
+  | ["jobytes", h] =>
+    match (if h == "-" then some [] else unhex? h) with
+    | some bs =>
+      let t := beVal ((bs.drop 8).take 8)
+      let back : Option Nat := if bs.length != 16 then none else if t > 0 then some t else none
+      (st, { model := "back=" ++ (match back with | some v => toString v | none => "-"), nontrivial := bs.length == 16 })
+    | none => (st, { model := "bad-op" })
   | ["jobopt", h] =>
     match unhex? h with
     | some bs =>
